@@ -194,7 +194,7 @@ def diagnose(expected, got, dec):
                 continue
             try:
                 if g.decode(c) == etext:
-                    labels.append("reencoded:%s->%s" % (base, c))
+                    labels.append("reencoded:->%s" % c)
                     return "+".join(labels)
             except UnicodeError:
                 pass
